@@ -15,8 +15,8 @@ TRUSTED = ["cv2.findContours is a black box: no model of it is attempted; what F
            "the clean-up: Model/SkeletonT3.v get_artifacts / t3 tied exactly to Skeleton.get_artifacts / do_t3_transition, step by step, on value snapshots taken "
            "around the real calls while the images are parsed (up to 24 contractions and 3 artefact searches per run; a contraction is given the vertex ids and the "
            "tables restricted to the artefact's neighbourhood, and the harness checks that nothing outside it changed); for three parses per run (meshes of at most 900 pixels) the "
-           "grouping of the artefact vertices and the state after all contractions = `artefacts` / `clean_up` of the model on the whole state; the inner-triangle pass and the "
-           "removal of isolated cells are not modelled",
+           "grouping of the artefact vertices, the state after all contractions and the mesh create_lattice returns (after the removal of isolated cells) = `artefacts` / `clean_up` / "
+           "`finish_lattice` of the model on the whole state (five parses per run, meshes of at most 900 pixels); the inner-triangle pass, which runs before the artefact search, is not modelled",
            "expected topology of the generated images comes from the lattice generator, not from forsys"]
 ASSUMPTIONS = ["generated images follow the convention of the shipped ones: white frame on the image border, skeleton not touching it; framed images are also padded "
                "literally (frame inside the picture), where tissues of few cells fall under known finding D26"]
@@ -156,7 +156,7 @@ def expected_of_spec(spec):
 
 # ------------------------------------------------------------------ the artefact clean-up against Model/SkeletonT3.v
 T3REC = []          # records of this run: ("ga", pre, result) / ("t3", pre, artefact, post, label)
-T3CAP = {"t3": 24, "ga": 3}
+T3CAP = {"t3": 24, "ga": 5}
 
 
 def _snap(S):
@@ -224,6 +224,11 @@ def t3_cases(res, exprs):
             if whole["final"] is not None:
                 e_ += f" && mesh_eqb (clean_up m) {_mesh_lit(whole['final'])}"
                 res.count("whole clean-up pass (all contractions of a parse) against Model/SkeletonT3.v")
+            if whole.get("returned") is not None:
+                e_ += f" && mesh_eqb (finish_lattice m) {_mesh_lit(whole['returned'])}"
+                res.count("returned mesh = finish_lattice of the model (contractions, then removal of isolated cells)")
+                if whole["returned"] != (whole["final"] or pre):
+                    res.count("parse in which the removal of isolated cells removed something")
             exprs.append((e_, {"what": "get_artifacts", "vertices": len(pre["verts"]), "artefact vertices": got[:12], "groups": whole["groups"][:6]}))
             res.count("get_artifacts and the grouping of the artefact vertices against Model/SkeletonT3.v")
             continue
@@ -266,6 +271,10 @@ def observe(path, mirror_y, ne):
         sk = impl.fs.skeleton.Skeleton(path, mirror_y=mirror_y)
         contours = [np.array(c) for c in sk.contours]
         v, e, c = sk.create_lattice()
+        for r_ in T3REC:
+            if r_[0] == "ga" and r_[3]["sk"] == id(sk):
+                r_[3]["returned"] = _snap(sk)      # what create_lattice returns: after the removal of isolated cells
+                r_[3]["sk"] = None                 # (the id may be re-used by a later object)
     with impl.quiet():
         raw = {"vertices": int(sk.vertex_id), "cells": int(sk.cell_id), "cycles": [[w.id for w in cc.vertices] for cc in c.values()],
                "untouched": len(v) == sk.vertex_id and len(c) == sk.cell_id and len(e) == sk.edge_id,
@@ -417,6 +426,8 @@ def check_image(res, inner, expected, rng, exprs, label, syms, ne_match=False):
 def run(res, tier, seed):
     rng = np.random.default_rng(seed)
     exprs = []
+    del T3REC[:]
+    T3CAP.update({"t3": 24, "ga": 5} if tier == "quick" else {"t3": 120, "ga": 16})
     syms_quick = [SYMS[0], SYMS[int(rng.integers(1, 8))]]
     shapes = [(2, 2, "square"), (3, 3, "square"), (2, 2, "hex"), (3, 3, "hex"), (4, 3, "square"), (4, 4, "hex")] if tier == "quick" else \
         [(2, 2, "square"), (1, 4, "square"), (3, 3, "square"), (5, 4, "square"), (7, 6, "square"), (2, 2, "hex"), (3, 2, "hex"), (3, 3, "hex"), (5, 4, "hex"), (7, 8, "hex")]
